@@ -805,3 +805,183 @@ func (c *Ctx) r0810(pk *packages.Package) {
 	}
 	c.R.Floor(rule, "extensions over stored digits", n, 3)
 }
+
+// R08.11: comparisons in Number and Decimal relate positions with positions and lengths with lengths.
+func (c *Ctx) r0811(pk *packages.Package) {
+	const rule = "R08.11"
+	c.R.Rule(rule, "minify.Number and minify.Decimal work on indices into num (start, end, dot, the precision cut …) and on counts (prec, exponents, digit counts). A variable that is used by itself as an index or slice bound of num, or is the range key over num, is a position; so is a variable that a position is assigned from with the other terms being counts. A sum has the position degree Σ coefficient·[variable is a position]: `dot - precEnd + origExp` has degree 0 (a count of digits), `dot + origExp` degree 1. Both sides of every comparison between such sums must have the same degree — a count compared with a position is only right while the number starts at index 0, and it does not after a sign or stripped zeros (`prec+1 < dot+origExp` instead of `1 < dot-precEnd+origExp` rounds `-99` to one digit and needs a byte the slice does not have). Comparisons with a side that has no variables, or that mention len(), are not judged (a constant or a length can stand for either)")
+	info := pk.TypesInfo
+	total := 0
+	for _, name := range []string{"Number", "Decimal"} {
+		fd := c.fn(rule, pk, name)
+		if fd == nil {
+			continue
+		}
+		if fd.Type.Params == nil || len(fd.Type.Params.List) == 0 || len(fd.Type.Params.List[0].Names) == 0 {
+			continue
+		}
+		S := info.Defs[fd.Type.Params.List[0].Names[0]]
+		isS := func(e ast.Expr) bool {
+			id, ok := ast.Unparen(e).(*ast.Ident)
+			return ok && info.Uses[id] == S
+		}
+		P := map[types.Object]bool{}
+		asVar := func(e ast.Expr) types.Object {
+			if e == nil {
+				return nil
+			}
+			id, ok := ast.Unparen(e).(*ast.Ident)
+			if !ok {
+				return nil
+			}
+			if v, ok := info.Uses[id].(*types.Var); ok {
+				return v
+			}
+			return nil
+		}
+		ast.Inspect(fd.Body, func(x ast.Node) bool {
+			switch e := x.(type) {
+			case *ast.IndexExpr:
+				if isS(e.X) {
+					if v := asVar(e.Index); v != nil {
+						P[v] = true
+					}
+				}
+			case *ast.SliceExpr:
+				if isS(e.X) {
+					for _, b := range []ast.Expr{e.Low, e.High} {
+						if v := asVar(b); v != nil {
+							P[v] = true
+						}
+					}
+				}
+			case *ast.RangeStmt:
+				if isS(e.X) {
+					if id, ok := e.Key.(*ast.Ident); ok {
+						if o := info.Defs[id]; o != nil {
+							P[o] = true
+						}
+					}
+				}
+			}
+			return true
+		})
+		terms := func(e ast.Expr) (map[types.Object]int, bool, bool) {
+			out := map[types.Object]int{}
+			ok := true
+			hasLen := false
+			ast.Inspect(e, func(z ast.Node) bool {
+				if ce, isC := z.(*ast.CallExpr); isC {
+					if id, isId := ce.Fun.(*ast.Ident); isId && id.Name == "len" {
+						hasLen = true
+					}
+				}
+				return true
+			})
+			linearTerms(info, e, 1, out, &ok)
+			return out, ok, hasLen
+		}
+		degree := func(m map[types.Object]int) int {
+			d := 0
+			for v, k := range m {
+				if P[v] {
+					d += k
+				}
+			}
+			return d
+		}
+		// positions assigned from: p = q + counts  ⇒  an unknown with coefficient 1 next to position degree 0 is a position
+		for changed := true; changed; {
+			changed = false
+			ast.Inspect(fd.Body, func(x ast.Node) bool {
+				as, ok := x.(*ast.AssignStmt)
+				if !ok || (as.Tok != token.ASSIGN && as.Tok != token.DEFINE) || len(as.Lhs) != len(as.Rhs) {
+					return true
+				}
+				for i, l := range as.Lhs {
+					id, ok := l.(*ast.Ident)
+					if !ok {
+						continue
+					}
+					lo := info.ObjectOf(id)
+					m, lin, hasLen := terms(as.Rhs[i])
+					if !lin || hasLen {
+						continue
+					}
+					if P[lo] {
+						// exactly one non-position int variable with coefficient 1 and no position terms
+						if degree(m) == 0 {
+							var cand types.Object
+							cnt := 0
+							for v, k := range m {
+								if !P[v] && k == 1 {
+									cand = v
+									cnt++
+								}
+							}
+							nonpos := 0
+							for v := range m {
+								if !P[v] {
+									nonpos++
+								}
+							}
+							if cnt == 1 && nonpos == 1 && cand != S {
+								P[cand] = true
+								changed = true
+							}
+						}
+					} else if lo != nil && degree(m) == 1 {
+						// x := p + count  ⇒  x is a position
+						if bt, ok := lo.Type().Underlying().(*types.Basic); ok && bt.Info()&types.IsInteger != 0 {
+							P[lo] = true
+							changed = true
+						}
+					}
+				}
+				return true
+			})
+		}
+		n := 0
+		seen := map[string]int{}
+		ast.Inspect(fd.Body, func(x ast.Node) bool {
+			be, ok := x.(*ast.BinaryExpr)
+			if !ok {
+				return true
+			}
+			switch be.Op {
+			case token.LSS, token.LEQ, token.GTR, token.GEQ, token.EQL, token.NEQ:
+			default:
+				return true
+			}
+			if t := info.TypeOf(be.X); t == nil {
+				return true
+			} else if bt, ok := t.Underlying().(*types.Basic); !ok || bt.Info()&types.IsInteger == 0 {
+				return true
+			}
+			lm, lok, llen := terms(be.X)
+			rm, rok, rlen := terms(be.Y)
+			if !lok || !rok || llen || rlen || len(lm) == 0 || len(rm) == 0 {
+				return true
+			}
+			for v := range lm {
+				if v == S {
+					return true
+				}
+			}
+			for v := range rm {
+				if v == S {
+					return true
+				}
+			}
+			n++
+			total++
+			dl, dr := degree(lm), degree(rm)
+			key := nospace(str(be))
+			seen[key]++
+			c.R.Check(dl == dr, rule, fmt.Sprintf("minify.%s/%s#%d relates like with like", name, key, seen[key]), c.pos(be), fmt.Sprintf("position degree %d on both sides", dl), fmt.Sprintf("the left side has position degree %d and the right side %d: a count is compared with an index into num, which is only right while the number starts at index 0 — after a sign or stripped leading zeros the test decides differently (`-99` at precision 1 is rounded to `100` and written past the end of the slice)", dl, dr))
+			return true
+		})
+		_ = n
+	}
+	c.R.Floor(rule, "comparisons between sums of positions and counts", total, 20)
+}
